@@ -58,12 +58,19 @@ func VF_C14_e_range() {
 // block. The voting power rank is the empty one of a fresh chain (newVpr) and follows the history.
 
 const (
-	vfTokPeer   = "QmNQatwxYrvx45JHzALe54be3KTBVQrLtHdPfkmvNNhQkw" // base58 of a peer id
+	// base58 of a 39-byte peer id (secp256k1 identity multihash). A 34-byte sha256 peer id ("Qm...") is deliberately not
+	// offered: types.ValidateSystemTx admits it, the vote code then slices Candidate[off:off+39] beyond the slice length,
+	// which does not panic natively only because append rounded the capacity up (see notes/C14.md, observation O1).
+	vfTokPeer   = "16Uiu2HAmBDcLEjBYeEnGU2qDD1KdpEdwDBtN7gqXzNZbHXo8Q841"
 	vfMaxAERStr = "500000000000000000000000000"
 	vfMaxAER1   = "500000000000000000000000001"
 )
 
 func vfC14Panics(f func()) (panicked bool) {
+	if vf.Param("norecover", 0) == 1 {
+		f()
+		return false
+	}
 	defer func() {
 		if r := recover(); r != nil {
 			panicked = true
@@ -115,6 +122,20 @@ func vfClassF9(doc *vf.CallDoc) bool {
 	return doc.Name == "v1voteDAO" && len(doc.Args) == 1
 }
 
+// vfC14Amt: 0 or an amount of exactly 11 bytes (2^80 <= x < 2^88; staking minimum 10^22 < 2^80 < MaxAER < 2^89): keeps
+// the byte-length case split of the serialised records small (param amtAny=1: any amount below 2^88).
+func vfC14Amt(name string) *big.Int {
+	b := vf.Big(name)
+	lo := new(big.Int).Lsh(big.NewInt(1), 80)
+	hi := new(big.Int).Lsh(big.NewInt(1), 88)
+	if vf.Param("amtAny", 0) == 1 {
+		vf.Assume(b.Cmp(hi) < 0)
+	} else {
+		vf.Assume(vf.Or(b.Sign() == 0, vf.And(b.Cmp(lo) >= 0, b.Cmp(hi) < 0)))
+	}
+	return b
+}
+
 type vfC14World struct {
 	sdb    *statedb.StateDB
 	scs    *statedb.ContractState
@@ -142,9 +163,7 @@ func VF_C14_bc_system() {
 		vf.Fail("harness.setup")
 		return
 	}
-	bound := new(big.Int).Mul(big.NewInt(1<<44), big.NewInt(1<<44)) // 2^88 < MaxAER < 2^89
-	bal := vf.Big("sender.balance")
-	vf.Assume(bal.Cmp(bound) < 0)
+	bal := vfC14Amt("sender.balance")
 	w.sender = state.InitAccountState(vfAddrA, w.sdb, &types.State{Balance: bal.Bytes()}, &types.State{Balance: bal.Bytes()})
 
 	ver := vf.I32("forkVersion")
@@ -155,7 +174,7 @@ func VF_C14_bc_system() {
 	// history
 	pre := vf.Choice("pre", 3)
 	if pre >= 1 {
-		amt := vf.Big("pre.stake")
+		amt := vfC14Amt("pre.stake")
 		vf.Assume(amt.Cmp(GetStakingMinimum()) >= 0)
 		vf.Assume(amt.Cmp(bal) <= 0)
 		bi := &types.BlockHeaderInfo{No: no, ForkVersion: ver}
@@ -182,8 +201,7 @@ func VF_C14_bc_system() {
 	// the transaction under test
 	sh, pos := vfC14SysShape()
 	payload, doc := vf.NondetCallPos("ci", sh, pos)
-	amount := vf.Big("tx.amount")
-	vf.Assume(amount.Cmp(bound) < 0)
+	amount := vfC14Amt("tx.amount")
 	body := w.body(payload, amount)
 	body.ChainIdHash = vf.Bytes("tx.chainIdHash", 2)
 	tx := &types.Tx{Body: body}
